@@ -420,21 +420,27 @@ class Multi:
             self.probes["captures"] += 1
             for tok in TOKEN.findall(exp):
                 self.captured_tokens.add(tok)
-            if o is not None:
-                o.begin_op(["capture"], [])
-                if o.hooked:
+            def phantom_check():
+                # known finding F7: a print inside capture() while the display is live renders the
+                # frame into the capture and updates the remembered shape although nothing reached
+                # the screen; it matters when that height differs from the one on screen.  The hook
+                # may be installed while the capture block is already running (another thread's
+                # start()), so the predicate is evaluated when the block is entered and when it is left.
+                if o is not None and o.hooked:
                     self.probes["print_in_capture_while_live"] += 1
-                    # known finding F7: a print inside capture() while the display is live renders
-                    # the frame into the capture and updates the remembered shape although nothing
-                    # reached the screen; it matters when that height differs from the one on screen
                     on_screen = len(o.frame) if o.frame else 0
                     if any(len(fr) != on_screen for fr in self.frames("frame")):
                         self.phantom = True
                         o.tags.add("phantom-frame")
+
+            if o is not None:
+                o.begin_op(["capture"], [])
+            phantom_check()
             n0 = len(self.file.writes)
             with self.console.capture() as cap:
                 for x in op[1]:
                     self._emit(x)
+                phantom_check()
             got = cap.get()
             mine = [w for w in self.file.writes[n0:] if w[1] == self.sim.me().tid]
             if mine:
